@@ -175,4 +175,113 @@
 #define os_atomic_rmw_loop_give_up(expr) \
 		os_atomic_rmw_loop_give_up_with_fence(relaxed, expr)
 
+#if DISPATCH_VERIF
+/*
+ * Verification hook (guarded by DISPATCH_VERIF, add-only, inert without it).
+ * Every os_atomic_* operation reports (address, size, kind, memory order,
+ * value before, value after / operand, success) to an optional callback, and
+ * DISPATCH_VERIF_NOTE() reports non-atomic events (futex wait/wake, semaphore
+ * post/wait). The callback is installed by the test harness; it may record the
+ * event and/or perturb the schedule (yield, sleep) at that point.
+ */
+#include <stdint.h>
+enum {
+	DV_LOAD = 1, DV_STORE, DV_XCHG, DV_CAS, DV_CASW, DV_ADD, DV_SUB, DV_AND,
+	DV_OR, DV_XOR, DV_FENCE,
+	DV_NOTE_FUTEX_WAIT = 32, DV_NOTE_FUTEX_WAIT_RET, DV_NOTE_FUTEX_WAKE,
+	DV_NOTE_SEM_WAIT, DV_NOTE_SEM_WAIT_RET, DV_NOTE_SEM_TIMEDWAIT_RET,
+	DV_NOTE_SEM_POST, DV_NOTE_CALLOUT_BEGIN, DV_NOTE_CALLOUT_END,
+	DV_NOTE_USER,
+};
+enum { _dv_mo_relaxed = 0, _dv_mo_consume = 1, _dv_mo_acquire = 2,
+	_dv_mo_release = 3, _dv_mo_acq_rel = 4, _dv_mo_seq_cst = 5,
+	_dv_mo_ordered = 5, _dv_mo_dependency = 2 };
+typedef void (*dispatch_verif_cb_t)(const volatile void *addr, unsigned size,
+		int kind, int order, unsigned long long a, unsigned long long b,
+		int ok, const char *file, int line);
+#ifdef __cplusplus
+extern "C" {
+#endif
+__attribute__((__visibility__("default")))
+extern dispatch_verif_cb_t volatile _dispatch_verif_cb;
+#ifdef __cplusplus
+}
+#endif
+#define _dv_u(x) ((unsigned long long)(uintptr_t)(x))
+#define _dv_report(p, k, m, a, b, ok) do { \
+		dispatch_verif_cb_t _dv_cb = _dispatch_verif_cb; \
+		if (__builtin_expect(_dv_cb != 0, 0)) _dv_cb((p), \
+				(unsigned)sizeof(*(p)), (k), _dv_mo_##m, (a), (b), (ok), \
+				__FILE__, __LINE__); \
+	} while (0)
+#define DISPATCH_VERIF_NOTE(kind, addr, a, b) do { \
+		dispatch_verif_cb_t _dv_cb = _dispatch_verif_cb; \
+		if (__builtin_expect(_dv_cb != 0, 0)) _dv_cb((const volatile void *)(addr), \
+				0, (kind), 0, _dv_u(a), _dv_u(b), 1, __FILE__, __LINE__); \
+	} while (0)
+
+#undef os_atomic_load
+#define os_atomic_load(p, m) ({ \
+		__typeof__(p) _dvp = (p); \
+		_os_atomic_basetypeof(_dvp) _dvr = atomic_load_explicit( \
+				_os_atomic_c11_atomic(_dvp), memory_order_##m); \
+		_dv_report(_dvp, DV_LOAD, m, _dv_u(_dvr), _dv_u(_dvr), 1); _dvr; })
+#undef os_atomic_store
+#define os_atomic_store(p, v, m) ({ \
+		__typeof__(p) _dvp = (p); _os_atomic_basetypeof(_dvp) _dvv = (v); \
+		atomic_store_explicit(_os_atomic_c11_atomic(_dvp), _dvv, \
+				memory_order_##m); \
+		_dv_report(_dvp, DV_STORE, m, 0, _dv_u(_dvv), 1); })
+#undef os_atomic_xchg
+#define os_atomic_xchg(p, v, m) ({ \
+		__typeof__(p) _dvp = (p); _os_atomic_basetypeof(_dvp) _dvv = (v); \
+		_os_atomic_basetypeof(_dvp) _dvr = atomic_exchange_explicit( \
+				_os_atomic_c11_atomic(_dvp), _dvv, memory_order_##m); \
+		_dv_report(_dvp, DV_XCHG, m, _dv_u(_dvr), _dv_u(_dvv), 1); _dvr; })
+#undef os_atomic_cmpxchg
+#define os_atomic_cmpxchg(p, e, v, m) ({ \
+		__typeof__(p) _dvp = (p); \
+		_os_atomic_basetypeof(_dvp) _r = (e), _dve = _r, _dvv = (v); \
+		_Bool _dvb = atomic_compare_exchange_strong_explicit( \
+				_os_atomic_c11_atomic(_dvp), &_r, _dvv, memory_order_##m, \
+				memory_order_relaxed); \
+		_dv_report(_dvp, DV_CAS, m, _dv_u(_r), _dv_u(_dvv), (int)_dvb + \
+				2 * (_dv_u(_dve) == _dv_u(_r))); _dvb; })
+#undef os_atomic_cmpxchgv
+#define os_atomic_cmpxchgv(p, e, v, g, m) ({ \
+		__typeof__(p) _dvp = (p); \
+		_os_atomic_basetypeof(_dvp) _r = (e), _dvv = (v); \
+		_Bool _b = atomic_compare_exchange_strong_explicit( \
+				_os_atomic_c11_atomic(_dvp), &_r, _dvv, memory_order_##m, \
+				memory_order_relaxed); *(g) = _r; \
+		_dv_report(_dvp, DV_CAS, m, _dv_u(_r), _dv_u(_dvv), (int)_b); _b; })
+#undef os_atomic_cmpxchgvw
+#define os_atomic_cmpxchgvw(p, e, v, g, m) ({ \
+		__typeof__(p) _dvp = (p); \
+		_os_atomic_basetypeof(_dvp) _r = (e), _dvv = (v); \
+		_Bool _b = atomic_compare_exchange_weak_explicit( \
+				_os_atomic_c11_atomic(_dvp), &_r, _dvv, memory_order_##m, \
+				memory_order_relaxed); *(g) = _r; \
+		_dv_report(_dvp, DV_CASW, m, _dv_u(_r), _dv_u(_dvv), (int)_b); _b; })
+#undef _os_atomic_c11_op
+#define _os_atomic_c11_op(p, v, m, o, op) ({ \
+		__typeof__(p) _dvp = (p); \
+		_os_atomic_basetypeof(_dvp) _v = (v), _r = \
+		atomic_fetch_##o##_explicit(_os_atomic_c11_atomic(_dvp), _v, \
+		memory_order_##m); \
+		_dv_report(_dvp, _dv_kind_##o, m, _dv_u(_r), _dv_u(_v), 1); \
+		(__typeof__(_r))(_r op _v); })
+#undef _os_atomic_c11_op_orig
+#define _os_atomic_c11_op_orig(p, v, m, o, op) ({ \
+		__typeof__(p) _dvp = (p); \
+		_os_atomic_basetypeof(_dvp) _v = (v), _r = \
+		atomic_fetch_##o##_explicit(_os_atomic_c11_atomic(_dvp), _v, \
+		memory_order_##m); \
+		_dv_report(_dvp, _dv_kind_##o, m, _dv_u(_r), _dv_u(_v), 1); _r; })
+enum { _dv_kind_add = DV_ADD, _dv_kind_sub = DV_SUB, _dv_kind_and = DV_AND,
+	_dv_kind_or = DV_OR, _dv_kind_xor = DV_XOR };
+#else
+#define DISPATCH_VERIF_NOTE(kind, addr, a, b) ((void)0)
+#endif // DISPATCH_VERIF
+
 #endif // __DISPATCH_SHIMS_ATOMIC__
